@@ -161,6 +161,13 @@ main(int argc, char **argv)
     const rc::Random rnd(wk::splitmix(seed ^ wk::splitmix(i + 0x2468ACEULL)));
     auto shr = gen(rnd, 100);
     ZCase c = shr.value();
+    {
+      // the current case is always on disk (one pwrite), so that a sanitizer abort can be attributed and replayed
+      static const int fd = open((out + "/cur.case").c_str(), O_CREAT | O_RDWR | O_TRUNC, 0644);
+      std::string t = "# index " + std::to_string(i) + "\n" + to_text(c);
+      t.resize(4096, '\n');
+      if (fd >= 0) (void)!pwrite(fd, t.data(), t.size(), 0);
+    }
     Verdict v;
     run_case(c, v);
     C.evaluations++;
